@@ -4,6 +4,7 @@ C12 — containers handed out or taken in are snapshots; mutating them changes n
 Case: {"g": graph desc, "uni": [member idx...], "cache": bool, "pair": [a, b]}
 For the world of a case the whole (exchange point x mutation) matrix is enumerated.
 """
+from eglib import h
 from hypothesis import strategies as st
 
 from eglib import battery, graphs
@@ -131,19 +132,19 @@ def out_points(W):
         ("Universe.vertices", lambda: W.uni.vertices),
         ("edge_whitelist", lambda: W.laws.edge_whitelist),
         ("edge_whitelist.inner", lambda: next(iter(W.laws.edge_whitelist.values()))),
-        ("neighbors()", lambda: helpers.neighbors(a, 1, 1)),
+        ("neighbors()", lambda: h.neighbors(a, 1, 1)),
         # a genuine cache MISS: invalidate a's cache by a structural no-op (re-adding a link it already has),
         # then query - the list returned by the cache-FILLING call must not be the cached object either
-        ("neighbors()after-invalidation", lambda: (a.add_to_link(a.links[0]) if a.links else None, helpers.neighbors(a, 1, 1))[1]),
-        ("neighbors(filter)after-invalidation", lambda: (b.add_to_link(b.links[-1]) if b.links else None, helpers.neighbors(b, 2, 1, battery.f_accept))[1]),
-        ("neighbors()second-call", lambda: (helpers.neighbors(a, 1, 1), helpers.neighbors(a, 1, 1))[1]),
-        ("neighbors(filter)", lambda: helpers.neighbors(a, 0, 1, battery.f_accept)),
-        ("neighbors(filter)second-call", lambda: (helpers.neighbors(b, 2, 1, battery.f_accept), helpers.neighbors(b, 2, 1, battery.f_accept))[1]),
-        ("find_links()", lambda: helpers.find_links(a, b, False, 1)),
-        ("bft()", lambda: B.bft(None, a, direction_sensitive=1, unknown_handling=1)),
-        ("dft_recursive()", lambda: D.dft_recursive(None, a, direction_sensitive=1, unknown_handling=1)),
-        ("dft_iterative()", lambda: D.dft_iterative(None, a, direction_sensitive=1, unknown_handling=1)),
-        ("bft(uni)", lambda: B.bft(W.uni, W.uni.vertices[0], direction_sensitive=1, unknown_handling=1)),
+        ("neighbors()after-invalidation", lambda: (a.add_to_link(a.links[0]) if a.links else None, h.neighbors(a, 1, 1))[1]),
+        ("neighbors(filter)after-invalidation", lambda: (b.add_to_link(b.links[-1]) if b.links else None, h.neighbors(b, 2, 1, battery.f_accept))[1]),
+        ("neighbors()second-call", lambda: (h.neighbors(a, 1, 1), h.neighbors(a, 1, 1))[1]),
+        ("neighbors(filter)", lambda: h.neighbors(a, 0, 1, battery.f_accept)),
+        ("neighbors(filter)second-call", lambda: (h.neighbors(b, 2, 1, battery.f_accept), h.neighbors(b, 2, 1, battery.f_accept))[1]),
+        ("find_links()", lambda: h.find_links(a, b, False, 1)),
+        ("bft()", lambda: B.bft(None, a, **h.kw(1, 1))),
+        ("dft_recursive()", lambda: D.dft_recursive(None, a, **h.kw(1, 1))),
+        ("dft_iterative()", lambda: D.dft_iterative(None, a, **h.kw(1, 1))),
+        ("bft(uni)", lambda: B.bft(W.uni, W.uni.vertices[0], **h.kw(1, 1))),
         ("bft(empty-universe)", lambda: B.bft(W.empty, a)),
     ]
     if W.ls:
